@@ -253,8 +253,14 @@ def build(tier):
     ]
     # per-deal processing steps: locked/escrow/totals move by exactly the change of the deal's obligations
     for o in C07.build(tier):
-        o.name = o.name + ' (obligation accounting)'
-        O.append(o)
+        if o.name.startswith('market.process_'):
+            o.name = o.name + ' (obligation accounting)'
+            O.append(o)
+    # missed activation: released exactly once, never stranded (incl. the failing clean-up tolerated by settle_deal_payments)
+    from . import C08
+    for o in C08.build(tier):
+        if 'get_active_deal_or_process_timeout' in o.name:
+            O.append(o)
     from . import market_publish
     O += market_publish.build_for('C06', tier)
     return O
